@@ -166,6 +166,27 @@ theorem ext_partition (crl : CRL) (serial : Int) (cache : Option Cache) :
       simp only [List.filter_cons, List.length_cons]
       cases isNum e <;> cases e.critical <;> simp <;> omega
 
+/-! ### CRL number decoding -/
+
+/-- A CRL-number extension value in DER short form — tag 02, one length byte, 1..8 minimal content bytes, then
+    anything — decodes to the two's-complement integer of the content (and `numOf` is that integer). -/
+theorem derInt_short_form (c tail : Bytes) (h1 : 1 ≤ c.length) (h8 : c.length ≤ 8) (hmin : checkInteger c = true) :
+    derInt (2 :: UInt8.ofNat c.length :: (c ++ tail)) = some (twos c) := by
+  have hl : (UInt8.ofNat c.length).toNat = c.length := by
+    rw [UInt8.toNat_ofNat']; omega
+  have h2 : (2 : UInt8).toNat = 2 := rfl
+  simp only [derInt, h2, ne_eq, not_true_eq_false, if_false, parseLen, hl]
+  have hlt : c.length < 128 := by omega
+  simp only [hlt, if_true]
+  have : ¬ (c.length > (c ++ tail).length) := by simp
+  simp only [this, if_false, List.take_left' rfl, hmin, Bool.not_true, Bool.false_eq_true]
+  have : ¬ (c.length > 8) := by omega
+  simp [this]
+
+example : derInt [2, 2, 1, 44, 99] = some 300 := by decide
+example : derInt [2, 1, 255] = some (-1) := by decide
+example : checkInteger [0, 5] = false := by decide
+
 /-! ### copied header -/
 
 theorem header_copied (crl : CRL) (serial : Int) (cache : Option Cache) :
